@@ -5,6 +5,7 @@ from ..core import Property, AnalysisError, unparse, norm, walk_no_nested
 from ..sym import Interp, S, term, show, subterms, State, flatten_cat, rewrite
 from ..layout import LAYOUT_HOOKS, Stream, canon_layout, normalize, plus_to_cat, opaque_subterms
 from .. import intv, mut
+from ..cfg import build_cfg
 from . import c18
 
 PROP = Property(
@@ -604,14 +605,23 @@ def legacy_no_witness(ctx):
     it = Interp(ctx.repo, 'transactions', self_cls='transactions:Transaction')
     I = ('var', 'i')
     res = {}
+    import itertools
+    # other names the guard reads (the serialisation format of the whole transaction): the verdict for a legacy input must not depend on them
+    free = sorted(set(x.id for x in ast.walk(ifs[0].test) if isinstance(x, ast.Name) and x.id not in ('i', 'self')))
     for wt in ('legacy', 'segwit', 'p2sh-segwit'):
-        st = State(env={'i': S(I), 'self': S(('var', 'self'))})
-        st.heap[('attr', I, 'witnesses')] = [b'sig', b'key']
-        st.heap[('attr', I, 'witness_type')] = wt
-        v = it.truth(it.eval(ifs[0].test, st), st)
-        if not isinstance(v, bool):
-            ctx.undecided('Transaction.raw: witness guard `%s` not decidable' % norm(ifs[0].test))
-        res[wt] = v
+        vals = set()
+        for combo in itertools.product(('segwit', 'legacy', 'p2sh-segwit'), repeat=len(free)):
+            st = State(env=dict({'i': S(I), 'self': S(('var', 'self'))}, **dict(zip(free, combo))))
+            st.heap[('attr', I, 'witnesses')] = [b'sig', b'key']
+            st.heap[('attr', I, 'witness_type')] = wt
+            st.heap[('attr', ('var', 'self'), 'witness_type')] = combo[0] if combo else 'segwit'
+            v = it.truth(it.eval(ifs[0].test, st), st)
+            if not isinstance(v, bool):
+                ctx.undecided('Transaction.raw: witness guard `%s` not decidable' % norm(ifs[0].test))
+            if combo and combo[0] == 'legacy' and wt != 'legacy':
+                continue        # a transaction serialised in the legacy format has no witness section at all
+            vals.add(v)
+        res[wt] = (True in vals) if wt == 'legacy' else (False not in vals)
     ctx.saw('input with a filled witnesses list: stack serialised for %s' % res)
     ctx.require(res['legacy'] is False, q, 'the witness stack of a LEGACY input is serialised (guard `%s`)' % norm(ifs[0].test), ifs[0],
                 'a parsed transaction that mixes P2PKH and segwit inputs re-serialises 107 bytes longer per legacy input')
@@ -1103,3 +1113,92 @@ def parsed_script_kept(ctx):
         ctx.require(kept, q, 'the scriptSig of a legacy %s input parsed with strict=%s is regenerated from the parsed signatures and keys instead of kept' % (stype, strict), fn,
                     'Transaction.parse(raw).raw() != raw for a well-formed transaction whose scriptSig uses a non-minimal push (OP_PUSHDATA1 for a 71-byte signature)')
     ctx.floor(n, 3, 'parsed-input scenarios')
+
+
+@PROP.obligation('C06.resign-updates-script', canaries=[
+    mut.replace_expr('transactions', 'Input.update_scripts', "unlock_script != b''", "unlock_script != b'' and (not self.unlocking_script)", 'a complete multisig scriptSig is never rewritten', nth=1),
+])
+def resign_updates_script(ctx):
+    """The other side of C06.parsed-script-kept: Input.update_scripts is also what writes the scriptSig after signing. For an input of a
+    transaction built through the API (strict=True) that already carries a complete scriptSig and whose signature list has been replaced
+    (set_locktime_*, bumpfee, sign(replace_signatures=True), merge), the serialised scriptSig is rebuilt from the CURRENT signatures -
+    otherwise raw() keeps emitting the old signatures while verify(), which reads Input.signatures, answers True."""
+    q = 'transactions:Input.update_scripts'
+    fn = ctx.repo.func(q)
+    U = S(('var', 'old_scriptsig'), 'bytes')
+    rs = b'\x52' + b'\x21' + b'\x02' * 33 + b'\x21' + b'\x03' * 33 + b'\x52\xae'
+    n = 0
+    for stype in ('sig_pubkey', 'p2sh_multisig'):
+        heap = {A(SELF, 'script_type'): stype, A(SELF, 'witness_type'): 'legacy', A(SELF, 'strict'): True, A(SELF, 'unlocking_script'): U,
+                A(SELF, 'public_hash'): S(('var', 'h'), 'bytes'), A(SELF, 'locktime_cltv'): None, A(SELF, 'locktime_csv'): None}
+        if stype == 'sig_pubkey':
+            heap.update({A(SELF, 'keys'): [S(('var', 'key'))], A(SELF, 'signatures'): [S(('var', 'newsig'))]})
+        else:
+            heap.update({A(SELF, 'keys'): [S(('var', 'key1')), S(('var', 'key2'))], A(SELF, 'signatures'): [S(('var', 'newsig1')), S(('var', 'newsig2'))],
+                         A(SELF, 'redeemscript'): rs, A(SELF, 'sigs_required'): 2})
+
+        def decide(t):
+            if t in (('var', 'old_scriptsig'), ('var', 'h'), ('len', ('var', 'old_scriptsig')), ('len', ('var', 'h'))):
+                return True
+            return None
+        it = Interp(ctx.repo, 'transactions', hooks=LAYOUT_HOOKS, self_cls='transactions:Input', decide=decide)
+        try:
+            exits = it.run_function(fn, {'self': S(SELF), 'hash_type': 1}, State(heap=heap))
+        except AnalysisError as e:
+            ctx.undecided('Input.update_scripts for a re-signed %s input not evaluable: %s' % (stype, str(e)[:100]))
+        rets = [e for e in exits if e.kind == 'return']
+        if not rets:
+            ctx.undecided('Input.update_scripts for a re-signed %s input: no normal exit' % stype)
+        n += 1
+        for e in rets:
+            got = term(e.heap.get(A(SELF, 'unlocking_script')))
+            fresh = any(isinstance(x, tuple) and x[:1] == ('var',) and str(x[1]).startswith('newsig') for x in subterms(('w', got)))
+            stale = got == ('var', 'old_scriptsig')
+            ctx.saw('re-signed legacy %s input -> scriptSig %s' % (stype, 'kept as it was' if stale else ('rebuilt from the current signatures' if fresh else show(got)[:50])))
+            ctx.require(fresh and not stale, q, 'after the signatures of a legacy %s input were replaced, the scriptSig %s' % (stype, 'is left as it was' if stale else 'is `%s`, which does not contain the current signatures' % show(got)[:60]), fn,
+                        'set_locktime_blocks() / bumpfee() / sign(replace_signatures=True) on a fully signed input: verify() is True and the txid changes, but raw() still carries the old signatures - invalid for every other verifier')
+    ctx.floor(n, 2, 're-sign scenarios')
+
+
+@PROP.obligation('C06.dict-reader-restores', canaries=[
+    mut.replace_stmt('blocks', 'Block.parse_transactions_dict', 'self.txs_data = txs_data_orig', 'self.txs_data.seek(80 + len(int_to_varbyteint(self.tx_count)))', 'stream rewound to the first transaction instead of to where it was'),
+    mut.drop_stmt('blocks', 'Block.parse_transactions_dict', 'self.txs_data = txs_data_orig', 'stream left at its end'),
+])
+def dict_reader_restores(ctx):
+    """Block.parse_transactions_dict reads the remaining transactions as dictionaries and must leave the block's transaction stream where
+    it FOUND it - the object readers (parse_transactions / parse_transaction) continue from that position. On every path to its return the
+    method restores what it saved before reading: the stream object it copied (self.txs_data = <copy made before the loop>) or the
+    position it noted (seek(<tell() taken before the loop>)). A rewind to a computed offset is only right for a block nobody has read yet."""
+    q = 'blocks:Block.parse_transactions_dict'
+    fn = ctx.repo.func(q)
+    g = build_cfg(fn)
+    loops = [n for n in ast.walk(fn) if isinstance(n, (ast.While, ast.For))]
+    if not loops:
+        ctx.undecided('parse_transactions_dict: reading loop not found')
+    first_loop = min(l.lineno for l in loops)
+    saved_obj, saved_pos = set(), set()
+    for a in ast.walk(fn):
+        if isinstance(a, ast.Assign) and isinstance(a.targets[0], ast.Name) and a.lineno < first_loop:
+            v = a.value
+            if isinstance(v, ast.Call) and norm(v.func) in ('deepcopy', 'copy', 'copy.deepcopy', 'copy.copy') and v.args and norm(v.args[0]) == 'self.txs_data':
+                saved_obj.add(a.targets[0].id)
+            if isinstance(v, ast.Call) and norm(v.func) == 'self.txs_data.tell':
+                saved_pos.add(a.targets[0].id)
+    restores = []
+    for node in g.nodes:
+        a = node.ast
+        if a is None:
+            continue
+        for y in ast.walk(a):
+            if isinstance(y, ast.Assign) and any(norm(t) == 'self.txs_data' for t in y.targets) and isinstance(y.value, ast.Name) and y.value.id in saved_obj and y.lineno > first_loop:
+                restores.append(node.id)
+            if isinstance(y, ast.Call) and norm(y.func) == 'self.txs_data.seek' and y.args and isinstance(y.args[0], ast.Name) and y.args[0].id in saved_pos and y.lineno > first_loop:
+                restores.append(node.id)
+    ctx.saw('saved before reading: stream copies %s, positions %s; restoring statements after the loop: %d' % (sorted(saved_obj), sorted(saved_pos), len(restores)))
+    exits = [x.id for x in g.nodes if x.kind == 'return'] + [g.exit_return]
+    reads = [node.id for node in g.nodes if node.ast is not None and any(isinstance(y, ast.Call) and norm(y.func) in ('self.parse_transaction_dict',) for y in ast.walk(node.ast))]
+    if not reads:
+        ctx.undecided('parse_transactions_dict: the call that reads a transaction was not found')
+    p_ = g.path_avoiding(exits, via=restores, start=reads[0])
+    ctx.require(p_ is None, q, 'after reading from self.txs_data the method can return without restoring the stream it saved before (%s)' % (g.describe_path(p_) if p_ else ''), fn,
+                'Block.parse(limit=k) followed by parse_transactions_dict() and parse_transactions(): the object reader restarts at transaction 0 - the first transactions twice, the last ones never, serialize() differs from the bytes parsed')
